@@ -277,6 +277,7 @@ def gen_items(rng, ncov, nvar, mono_sill=True):
         elem = rng.choice([E_RANGE, E_RANGE, E_ANGLE, E_PARAM, E_SILL])
         icov = rng.randint(0, ncov)            # ncov itself: designates nothing
         iv1 = rng.choice([0, 0, 0, 1, 2]); iv2 = rng.choice([0, 0, 1]) if elem == E_SILL else rng.choice([0, 0, 0, 1])
+        if elem == E_SILL and rng.random() < .6: iv1 = iv2 = 0      # the sill of a single variable: the item that really lands on a parameter
         case = rng.choice([T_LOWER, T_UPPER, T_EQUAL, T_EQUAL, T_DEFAULT])
         if elem == E_SILL:
             r = Fraction(rng.randint(1, 12), 4); val = r * r
@@ -549,6 +550,7 @@ def stage_goulard(ctx, exe, runner, quick):
         for r in records:
             nv = int(undy(r[2]))
             val = r[6 + nv * nv:6 + nv * nv + nv]; vec = r[6 + nv * nv + nv:6 + 2 * nv * nv + nv]
+            if any(x == [] for x in val + vec): return None      # NaN inside the loop: no replay, the sills are judged below
             eigs.append([val, [vec[k * nv:(k + 1) * nv] for k in range(nv)]])
         return [2] + c[2:] + [eigs]
     res = both(ctx, exe, runner, 'goulard', icases, mk)
@@ -561,7 +563,11 @@ def stage_goulard(ctx, exe, runner, quick):
         nvar, ncova, maxiter = c[2], c[3], c[5]
         S = [unmat(m) for m in sills]
         spec_ok = status != 0 or all(all(v is not None for r in M for v in r) and sym_defect(M) == 0 and is_psd_exact(M) for M in S)
-        if mi is None: continue
+        if mi is None:
+            if not spec_ok:
+                ctx.ndis += 1; ctx.found_input = True
+                ctx.violation(fn + ':sill-undefined', '%s returns sill matrices with NaN / not PSD: %s' % (fn, sx_str(sills)[:300]), {'case': sx_str(c), 'impl': sx_str(ii)[:3000]})
+            continue
         if mi[0] == 0:
             # the model asked for more eigen-pairs than impl produced (or computeEigen failed): iteration counts differ
             agree = (status != 0); tie = True
